@@ -366,8 +366,9 @@ def cmd_check(pid, tier, seed, opts):
         cov["explanation"] = meta.get("explanation", "")
     evidence = {"property_id": pid, "tier": tier, "seed": seed, "level": level, "coverage": cov,
                 "assumptions": trusted_base, "wall_s": wall, "violations": len(violations)}
-    os.makedirs(os.path.join(ROOT, "evidence"), exist_ok=True)
-    with open(os.path.join(ROOT, "evidence", pid + ".json"), "w") as f:
+    evdir = os.environ.get("VERIF_EVIDENCE_DIR", os.path.join(ROOT, "evidence"))
+    os.makedirs(evdir, exist_ok=True)
+    with open(os.path.join(evdir, pid + ".json"), "w") as f:
         json.dump(evidence, f, indent=1, default=str)
     for l in lines:
         print(l)
